@@ -8,6 +8,7 @@ package main
 import (
 	"fmt"
 	"os"
+	"strings"
 	"time"
 
 	"github.com/Comcast/rulio/core"
@@ -42,6 +43,10 @@ var scripts = []script{
 	{"nonterminating", "while(true){} ", "1", ""},
 	{"nonterminating", "var q = 0; for(;;){ q++ } ", "1", ""},
 	{"slow", "Env.sleep(30000000); ", "'slept'", "slept"},
+	// a script must not be able to swallow its own timeout
+	{"nonterminating", "var q = 0; try { while(true){ q++ } } catch (e) { q = -1 } ", "'swallowed'", ""},
+	{"nonterminating", "var q = 0; try { for(;;){ q++ } } finally { q = -2 } ", "'after finally'", ""},
+	{"nonterminating", "var q = 0; while (true) { try { q++ } catch (e) { } } ", "1", ""},
 }
 
 type tcase struct {
@@ -78,8 +83,20 @@ func run(c tcase) outcome {
 	bs := core.Bindings{"x": "b", "n": 41.0}
 	if c.Pos != "run" {
 		rule := core.Map{"when": map[string]interface{}{"pattern": map[string]interface{}{"go": "?x", "num": "?n"}}}
-		if c.Pos == "condition" {
-			rule["condition"] = map[string]interface{}{"code": "(" + wrapCond(c.Script) + ")"}
+		if strings.HasPrefix(c.Pos, "condition") {
+			leaf := map[string]interface{}{"code": "(" + wrapCond(c.Script) + ")"}
+			var cond map[string]interface{}
+			switch c.Pos {
+			case "condition-or": // a failing script under `or` next to a true disjunct
+				cond = map[string]interface{}{"or": []interface{}{leaf, map[string]interface{}{"code": "true"}}}
+			case "condition-and":
+				cond = map[string]interface{}{"and": []interface{}{map[string]interface{}{"code": "true"}, leaf}}
+			case "condition-not":
+				cond = map[string]interface{}{"not": map[string]interface{}{"and": []interface{}{leaf, map[string]interface{}{"code": "false"}}}}
+			default:
+				cond = leaf
+			}
+			rule["condition"] = cond
 			rule["action"] = map[string]interface{}{"code": "'acted'"}
 		} else {
 			rule["action"] = map[string]interface{}{"code": c.Script.Code()}
@@ -118,7 +135,7 @@ func run(c tcase) outcome {
 					}
 				}
 			}
-			if c.Pos == "condition" && len(fr.Values) == 0 && o.err == "" {
+			if strings.HasPrefix(c.Pos, "condition") && len(fr.Values) == 0 && o.err == "" {
 				o.value = "<condition rejected>"
 			}
 		}
@@ -162,9 +179,12 @@ func main() {
 			if disabled && sc.Family == "nonterminating" {
 				continue
 			}
-			for _, pos := range []string{"run", "condition", "action"} {
-				if pos == "condition" && sc.Family == "invalid" {
+			for _, pos := range []string{"run", "condition", "action", "condition-or", "condition-and", "condition-not"} {
+				if strings.HasPrefix(pos, "condition") && sc.Family == "invalid" {
 					continue // an invalid condition is wrapped and would change the program; invalid is covered by run/action
+				}
+				if strings.HasPrefix(pos, "condition-") && (sc.Family == "value" || sc.Family == "slow") {
+					continue // the composite conditions are there for the failing families
 				}
 				settings := []string{"control", "default"}
 				if disabled {
@@ -214,7 +234,7 @@ func main() {
 							r.Violate("", "a script that finishes within the limit failed: "+o.err, wit)
 						} else {
 							want := sc.Want
-							if pos == "condition" {
+							if strings.HasPrefix(pos, "condition") {
 								want = "acted" // the condition's value is truthy/non-null, the action runs
 							}
 							if o.value != want {
